@@ -452,6 +452,14 @@ def channel_fns(kind, file, impl_p, impl_c, chan_field):
                       ensures="final(self).rs == old(self).rs, final(self).same_streams(old(self)),"
                               "old(self).q@.len() > 0 ==> (r matches Some(d) && d.value == old(self).q@[0]) && final(self).q@ == old(self).q@.drop_first() && final(self).out@ == old(self).out@ + 1,"
                               "old(self).q@.len() == 0 ==> r is None && final(self).q == old(self).q && final(self).out == old(self).out"))
+    # pending_items_count: what flush / close poll (C06) and what C02 / C16 call "pending": the number of published, not yet consumed events
+    impl_common = impl_p.replace("ChannelProducer", "ChannelCommon")
+    fns.append(fn("pending_items_count", impl=impl_common, props=["C02", "C06", "C16"],
+                  sig="pub fn pending_items_count(&self) -> (r: u32)", sig_anchor=r"fn pending_items_count\(&self\) -> u32",
+                  rules=COMMON, requires="self.wf()", ensures="r as int == self.q@.len()"))
+    fns.append(fn("buffer_size", impl=impl_common, props=["C02"],
+                  sig="pub fn buffer_size(&self) -> (r: u32)", sig_anchor=r"fn buffer_size\(&self\) -> u32",
+                  requires="self.wf()", ensures="r as int == BUFFER_SIZE"))
     return fns
 
 
